@@ -1143,3 +1143,242 @@ Proof.
   unfold l_clear. pose proof (clear_loop_empty tb (S (length d)) d [] (Nat.lt_succ_diag_r _)) as H.
   destruct (clear_loop tb (S (length d)) d []) as [d1 es1]. cbn [fst] in H. intros E. inversion E. subst. reflexivity.
 Qed.
+
+(* ================================================================== list operations against Coq list functions *)
+Fixpoint upd_nat (l : list Z) (n : nat) (v : Z) : list Z :=
+  match l, n with
+  | [], _ => []
+  | _ :: t, O => v :: t
+  | x :: t, S m => x :: upd_nat t m v
+  end.
+Lemma zupd_upd_nat d : forall n v, (n < length d)%nat ->
+  firstn n d ++ v :: skipn (S n) d = upd_nat d n v.
+Proof.
+  induction d as [|x t IH]; intros [|n] v H; cbn in *; try lia; [reflexivity|].
+  f_equal. apply IH. lia.
+Qed.
+Lemma nth_upd_nat d : forall n m v, (n < length d)%nat ->
+  nth m (upd_nat d n v) 0 = if Nat.eqb m n then v else nth m d 0.
+Proof.
+  induction d as [|x t IH]; intros [|n] [|m] v H; cbn in *; try lia; try reflexivity.
+  apply IH. lia.
+Qed.
+Lemma length_upd_nat d : forall n v, length (upd_nat d n v) = length d.
+Proof. induction d as [|x t IH]; intros [|n] v; cbn; try reflexivity. f_equal. apply IH. Qed.
+
+Lemma znth_zupd d j v m : 0 <= j < zlen d -> 0 <= m ->
+  znth (zupd d j v) m = if m =? j then v else znth d m.
+Proof.
+  intros Hj Hm. unfold znth, zupd, zlen in *. rewrite zupd_upd_nat by lia. rewrite nth_upd_nat by lia.
+  destruct (Nat.eqb (Z.to_nat m) (Z.to_nat j)) eqn:E1, (m =? j) eqn:E2; try reflexivity.
+  - apply Nat.eqb_eq in E1. apply Z.eqb_neq in E2. lia.
+  - apply Nat.eqb_neq in E1. apply Z.eqb_eq in E2. subst. lia.
+Qed.
+
+(* ---- reverse *)
+Definition rev_inv (d0 : list Z) (i : Z) (d : list Z) : Prop :=
+  zlen d = zlen d0 /\
+  forall m, 0 <= m < zlen d0 ->
+    znth d m = if (m <? i) || (zlen d0 - 1 - i <? m) then znth d0 (zlen d0 - 1 - m) else znth d0 m.
+
+Lemma reverse_loop_inv tb d0 fuel : forall i d acc,
+  rev_inv d0 i d -> 0 <= i -> i + Z.of_nat fuel <= zlen d0 / 2 ->
+  rev_inv d0 (i + Z.of_nat fuel) (fst (reverse_loop tb fuel i d acc)).
+Proof.
+  induction fuel as [|f IH]; intros i d acc [Hl Hv] Hi Hb; cbn [reverse_loop].
+  - cbn [fst]. rewrite Z.add_0_r. split; assumption.
+  - assert (0 <= zlen d0) as Hn0 by (unfold zlen; lia).
+    assert (2 * (zlen d0 / 2) <= zlen d0) as Hdiv by (apply Z.mul_div_le; lia).
+    assert (0 <= i < zlen d0) as R1 by lia.
+    assert (0 <= zlen d0 - i - 1 < zlen d0) as R2 by lia.
+    replace (i + Z.of_nat (S f)) with ((i + 1) + Z.of_nat f) by lia.
+    apply IH; [|lia|lia].
+    rewrite Hl. split.
+    + rewrite !zlen_zupd; [exact Hl| rewrite Hl; exact R1 | rewrite zlen_zupd by (rewrite Hl; exact R1); rewrite Hl; exact R2].
+    + intros m Hm.
+      rewrite znth_zupd; [| rewrite zlen_zupd by (rewrite Hl; exact R1); rewrite Hl; exact R2 | lia].
+      rewrite znth_zupd; [|rewrite Hl; exact R1|lia].
+      rewrite (Hv i R1), (Hv (zlen d0 - i - 1) R2), (Hv m Hm).
+      repeat match goal with
+             | |- context [?a <? ?b] => destruct (Z.ltb_spec a b)
+             | |- context [?a =? ?b] => destruct (Z.eqb_spec a b)
+             end; cbn [orb]; try lia; try (f_equal; lia).
+Qed.
+
+Lemma rev_inv_done d0 d : rev_inv d0 (zlen d0 / 2) d -> d = rev d0.
+Proof.
+  intros [Hl Hv].
+  assert (0 <= zlen d0) as Hn0 by (unfold zlen; lia).
+  assert (zlen d0 = 2 * (zlen d0 / 2) + zlen d0 mod 2) as Hdm by (apply Z.div_mod; lia).
+  assert (0 <= zlen d0 mod 2 < 2) as Hmod by (apply Z.mod_pos_bound; lia).
+  assert (length d = length d0) as Hlen by (unfold zlen in Hl; lia).
+  apply (nth_ext _ _ 0 0).
+  - rewrite rev_length. exact Hlen.
+  - intros k Hk. rewrite rev_nth by lia.
+    assert (0 <= Z.of_nat k < zlen d0) as Hkz by (unfold zlen; lia).
+    specialize (Hv (Z.of_nat k) Hkz). unfold znth in Hv. rewrite Nat2Z.id in Hv. rewrite Hv.
+    assert (Z.to_nat (zlen d0 - 1 - Z.of_nat k) = (length d0 - S k)%nat) as Hidx by (unfold zlen; lia).
+    destruct ((Z.of_nat k <? zlen d0 / 2) || (zlen d0 - 1 - zlen d0 / 2 <? Z.of_nat k)) eqn:E.
+    + rewrite Hidx. reflexivity.
+    + apply orb_false_iff in E. destruct E as [E1 E2]. apply Z.ltb_ge in E1. apply Z.ltb_ge in E2.
+      f_equal. unfold zlen in *. lia.
+Qed.
+
+Theorem reverse_spec tb d d' es r : l_reverse tb d = LOk d' es r -> d' = rev d.
+Proof.
+  unfold l_reverse.
+  assert (0 <= zlen d / 2) as H2 by (apply Z.div_pos; unfold zlen; lia).
+  pose proof (reverse_loop_inv tb d (Z.to_nat (zlen d / 2)) 0 d []) as R.
+  destruct (reverse_loop tb (Z.to_nat (zlen d / 2)) 0 d []) as [d1 es1]. cbn [fst] in R.
+  intros E. inversion E. subst d1. apply rev_inv_done.
+  replace (zlen d / 2) with (0 + Z.of_nat (Z.to_nat (zlen d / 2))) at 1 by lia.
+  apply R; [|lia|lia]. split; [reflexivity|]. intros m Hm.
+  assert ((m <? 0) || (zlen d - 1 - 0 <? m) = false) as ->; [|reflexivity].
+  apply orb_false_iff. split; apply Z.ltb_ge; lia.
+Qed.
+
+(* ---- pop, remove *)
+Lemma zdel_last d : d <> [] -> zdel d (zlen d - 1) = removelast d.
+Proof.
+  intros Hne. unfold zdel, zlen. assert (0 < length d)%nat by (destruct d; [contradiction|cbn; lia]).
+  replace (S (Z.to_nat (Z.of_nat (length d) - 1))) with (length d) by lia.
+  rewrite skipn_all, app_nil_r. replace (Z.to_nat (Z.of_nat (length d) - 1)) with (pred (length d)) by lia.
+  symmetry. apply removelast_firstn_len.
+Qed.
+Lemma znth_last d : d <> [] -> znth d (zlen d - 1) = last d 0.
+Proof.
+  intros Hne. unfold znth, zlen. replace (Z.to_nat (Z.of_nat (length d) - 1)) with (length d - 1)%nat by lia.
+  induction d as [|x t IH]; [contradiction|]. destruct t as [|y t']; [reflexivity|].
+  cbn [length last]. replace (S (S (length t')) - 1)%nat with (S (length (y :: t') - 1)) by (cbn [length]; lia).
+  cbn [nth]. apply IH. discriminate.
+Qed.
+Lemma norm_index_m1 d : d <> [] -> norm_index (zlen d) (-1) = Some (zlen d - 1).
+Proof.
+  intros Hne. assert (0 < zlen d) as Hp by (unfold zlen; destruct d; [contradiction|cbn [length]; lia]).
+  unfold norm_index. change (-1 <? 0) with true. cbv iota.
+  destruct (0 <=? -1 + zlen d) eqn:E1; [|apply Z.leb_gt in E1; lia].
+  destruct (-1 + zlen d <? zlen d) eqn:E2; [|apply Z.ltb_ge in E2; lia].
+  cbn [andb]. f_equal. lia.
+Qed.
+Lemma norm_index_m1_nil : norm_index (zlen []) (-1) = None.
+Proof. reflexivity. Qed.
+
+Fixpoint remove_first (v : Z) (l : list Z) : list Z :=
+  match l with [] => [] | x :: t => if x =? v then t else x :: remove_first v t end.
+Lemma zdel_0 x t : zdel (x :: t) 0 = t.
+Proof. reflexivity. Qed.
+Lemma zdel_succ x t p : 0 <= p -> zdel (x :: t) (p + 1) = x :: zdel t p.
+Proof. intros H. unfold zdel. replace (Z.to_nat (p + 1)) with (S (Z.to_nat p)) by lia. reflexivity. Qed.
+Lemma index_of_spec v l : forall i,
+  match index_of i v l with
+  | Some j => i <= j < i + zlen l /\ zdel l (j - i) = remove_first v l /\ In v l
+  | None => ~ In v l
+  end.
+Proof.
+  induction l as [|x t IH]; intros i; cbn [index_of remove_first]; [intros []|].
+  destruct (x =? v) eqn:E.
+  - apply Z.eqb_eq in E. subst. rewrite Z.sub_diag. unfold zlen. cbn [length].
+    split; [lia|]. split; [reflexivity|left; reflexivity].
+  - apply Z.eqb_neq in E. specialize (IH (i + 1)). destruct (index_of (i + 1) v t) as [j|].
+    + destruct IH as [Hr [Hz Hin]]. unfold zlen in *. cbn [length]. split; [lia|]. split; [|right; exact Hin].
+      replace (j - i) with ((j - (i + 1)) + 1) by lia. rewrite zdel_succ by lia. rewrite Hz. reflexivity.
+    + intros [H|H]; [congruence|contradiction].
+Qed.
+
+(* ---- the 13 mutators as Coq list functions (None = the call raises and changes nothing) *)
+Definition list_op_result (d : list Z) (o : lop) : option (list Z) :=
+  match o with
+  | LAppend v => Some (d ++ [v])
+  | LInsert i v => let j := Z.to_nat (ins_pos (zlen d) i) in Some (firstn j d ++ v :: skipn j d)
+  | LSetItem i v => option_map (fun j => zupd d j v) (norm_index (zlen d) i)
+  | LSetSlice a b c vs =>
+      match slice_indices (zlen d) a b c with
+      | None => None
+      | Some (start, stop, step) =>
+          if step =? 1 then Some (firstn (Z.to_nat start) d ++ vs ++ skipn (Z.to_nat (Z.max start stop)) d)
+          else if zlen vs =? slice_len start stop step
+               then Some (set_positions d (slice_positions start stop step) vs) else None
+      end
+  | LDelItem i => option_map (zdel d) (norm_index (zlen d) i)
+  | LDelSlice a b c =>
+      match slice_indices (zlen d) a b c with
+      | None => None
+      | Some (start, stop, step) => Some (del_positions 0 d (slice_positions start stop step))
+      end
+  | LPop None => match d with [] => None | _ => Some (removelast d) end
+  | LPop (Some i) => option_map (zdel d) (norm_index (zlen d) i)
+  | LRemove v => if zmem v d then Some (remove_first v d) else None
+  | LExtend vs => Some (d ++ vs)
+  | LExtendSelf => Some (d ++ d)
+  | LIAdd vs => Some (d ++ vs)
+  | LReverse => Some (rev d)
+  | LClear => Some []
+  end.
+(* value returned by pop *)
+Definition list_op_ret (d : list Z) (o : lop) : val :=
+  match o with
+  | LPop None => VInt (last d 0)
+  | LPop (Some i) => match norm_index (zlen d) i with Some j => VInt (znth d j) | None => VNone end
+  | _ => VNone
+  end.
+
+Lemma zlen_slice_positions start stop step : zlen (slice_positions start stop step) = Z.max 0 (slice_len start stop step).
+Proof.
+  unfold slice_positions, zlen, zrange. rewrite map_length, map_length, seq_length. lia.
+Qed.
+Lemma slice_len_nonneg start stop step : step <> 0 -> 0 <= slice_len start stop step.
+Proof.
+  intros Hs. unfold slice_len. destruct (step <? 0) eqn:E.
+  - apply Z.ltb_lt in E. destruct (stop <? start) eqn:E2; [|lia]. apply Z.ltb_lt in E2.
+    assert (0 <= (start - stop - 1) / - step) by (apply Z.div_pos; lia). lia.
+  - apply Z.ltb_ge in E. destruct (start <? stop) eqn:E2; [|lia]. apply Z.ltb_lt in E2.
+    assert (0 <= (stop - start - 1) / step) by (apply Z.div_pos; lia). lia.
+Qed.
+Lemma slice_indices_step len a b c start stop step :
+  slice_indices len a b c = Some (start, stop, step) -> step <> 0.
+Proof.
+  unfold slice_indices. destruct (match c with Some s => s | None => 1 end =? 0) eqn:E; [discriminate|].
+  intros H. inversion H. subst. apply Z.eqb_neq in E. exact E.
+Qed.
+
+Theorem list_op_spec tb d o :
+  match list_op tb d o with
+  | LOk d' _ r => list_op_result d o = Some d' /\ r = list_op_ret d o
+  | LErr _ => list_op_result d o = None
+  end.
+Proof.
+  destruct o as [v|i v|i v|a b c vs|i|a b c|[i|]|v|vs| |vs| | ]; cbn [list_op list_op_result list_op_ret].
+  - split; reflexivity.
+  - split; reflexivity.
+  - unfold p_setitem. destruct (norm_index (zlen d) i); cbn [option_map]; [split; reflexivity|reflexivity].
+  - unfold p_setslice. destruct (slice_indices (zlen d) a b c) as [[[start stop] step]|] eqn:E; [|reflexivity].
+    destruct (step =? 1); [split; reflexivity|].
+    rewrite zlen_slice_positions, Z.max_r by (apply slice_len_nonneg; apply (slice_indices_step _ _ _ _ _ _ _ E)).
+    destruct (zlen vs =? slice_len start stop step); [split; reflexivity|reflexivity].
+  - unfold p_delitem. destruct (norm_index (zlen d) i); cbn [option_map]; [split; reflexivity|reflexivity].
+  - unfold p_delslice. destruct (slice_indices (zlen d) a b c) as [[[start stop] step]|]; [split; reflexivity|reflexivity].
+  - unfold l_pop, p_delitem. destruct (norm_index (zlen d) i); cbn [option_map]; [split; reflexivity|reflexivity].
+  - unfold l_pop, p_delitem. destruct d as [|x t]; [reflexivity|].
+    rewrite norm_index_m1 by discriminate. split.
+    + rewrite zdel_last by discriminate. reflexivity.
+    + rewrite znth_last by discriminate. reflexivity.
+  - unfold l_remove. pose proof (index_of_spec v d 0) as S. destruct (index_of 0 v d) as [j|].
+    + destruct S as [Hr [Hz Hin]]. unfold p_delitem. rewrite norm_index_in by lia.
+      apply zmem_In in Hin. rewrite Hin. rewrite Z.sub_0_r in Hz. rewrite Hz. split; reflexivity.
+    + destruct (zmem v d) eqn:E; [apply zmem_In in E; contradiction|reflexivity].
+  - pose proof (extend_spec tb d vs) as S. destruct (l_extend tb d vs) as [d' es r|k] eqn:E.
+    + rewrite (S _ _ _ eq_refl). unfold l_extend in E. destruct (extend_loop tb d vs []). inversion E. split; reflexivity.
+    + unfold l_extend in E. destruct (extend_loop tb d vs []). discriminate.
+  - pose proof (extend_spec tb d d) as S. destruct (l_extend tb d d) as [d' es r|k] eqn:E.
+    + rewrite (S _ _ _ eq_refl). unfold l_extend in E. destruct (extend_loop tb d d []). inversion E. split; reflexivity.
+    + unfold l_extend in E. destruct (extend_loop tb d d []). discriminate.
+  - pose proof (extend_spec tb d vs) as S. destruct (l_extend tb d vs) as [d' es r|k] eqn:E.
+    + rewrite (S _ _ _ eq_refl). unfold l_extend in E. destruct (extend_loop tb d vs []). inversion E. split; reflexivity.
+    + unfold l_extend in E. destruct (extend_loop tb d vs []). discriminate.
+  - pose proof (reverse_spec tb d) as S. destruct (l_reverse tb d) as [d' es r|k] eqn:E.
+    + rewrite (S _ _ _ eq_refl). unfold l_reverse in E. destruct (reverse_loop tb _ 0 d []). inversion E. split; reflexivity.
+    + unfold l_reverse in E. destruct (reverse_loop tb _ 0 d []). discriminate.
+  - pose proof (clear_spec tb d) as S. destruct (l_clear tb d) as [d' es r|k] eqn:E.
+    + rewrite (S _ _ _ eq_refl). unfold l_clear in E. destruct (clear_loop tb _ d []). inversion E. split; reflexivity.
+    + unfold l_clear in E. destruct (clear_loop tb _ d []). discriminate.
+Qed.
